@@ -50,7 +50,7 @@ PROPS = {
         "assumptions": ["audited sink entries (rules/sinks.json) record a human judgement made once by reading the code; the analysis re-checks only that their required guards still dominate the sink"],
     },
     "C06": {
-        "rules": [rules_io.flushfirst, rules_io.window, rules_io.posdim, rules_io.poskeep, rules_api.errkind("C06")],
+        "rules": [rules_io.flushfirst, rules_io.window, rules_io.posdim, rules_io.poskeep, rules_struct.cutoff, rules_api.errkind("C06")],
         "explanation": "Cache-protocol clauses of the hand-written stream buffer, decided as path properties over the MIR of every Stream method: "
                        "R-FLUSHFIRST (every window move - store to buf_offset_from_start, StreamBuffer::clear, refill_with - is preceded on every path by the ok successor of flush_changes, with no mark_modified in between) and "
                        "R-WINDOW (after the window offset is stored, every path to any return, error exits included, passes clear or a successful refill), R-POSDIM (every value stored as window offset or stream length is a stream position - old offset + buffer-relative amount, current_position(), or a validated absolute target - never a bare buffer cursor), R-ERRKIND rows (the five out-of-range seeks are InvalidInput).",
@@ -71,7 +71,7 @@ PROPS = {
         "not_decided": "that compare_names is the CFB order over all Unicode (ASCII fast path vs general path, upper-casing table); that names are stored verbatim and found under every case variant",
     },
     "C10": {
-        "rules": [rules_api.noeffect, rules_name.validname_effects_only],
+        "rules": [rules_api.noeffect, rules_name.validname_effects_only, rules_api.deeprefusal],
         "explanation": "R-NOEFFECT (must-not-precede): refusal points of every API method (io::Error::new with NotFound/AlreadyExists/InvalidInput, and error exits of effect-free fallible callees that can construct such kinds) are enumerated from MIR; "
                        "no path from the entry to a refusal point may pass a call whose transitive effects include a state/file mutation, a Stream drop, or a store to a Stream field. R-VALIDNAME(noeffect): the refusal of an invalid name (made below the API layer, in the directory code) is not preceded by a mutation anywhere on the creation call chain.",
         "not_decided": "bit-for-bit equality of state (follows from 'no effect ran' only given that effect-free code is effect-free, which the effect closure establishes for this crate); partial effects of the compound operations create_storage_all/remove_storage_all when a later step is refused by a callee",
@@ -90,7 +90,7 @@ PROPS = {
         "not_decided": "that the bytes returned equal the fault-free run (values); behaviour of std's read_exact/read_to_end themselves",
     },
     "C13": {
-        "rules": [rules_io.errdisc(["io_write", "io_flush", "io_seek"], "write"), rules_io.dirty, rules_io.flushreach, rules_follow.make("R-WBENTRY", "C13"), rules_wt.order, rules_follow.make("R-RETRY", "C13")],
+        "rules": [rules_io.errdisc(["io_write", "io_flush", "io_seek"], "write"), rules_io.dirty, rules_io.flushreach, rules_follow.make("R-WBENTRY", "C13"), rules_wt.order, rules_follow.make("R-RETRY", "C13"), rules_follow.make("R-SETTER", "C13")],
         "explanation": "R-ERRDISC(write): no io::Result of a call with backend write/flush/seek effect is dropped (one listed exception: Drop for Stream). "
                        "R-DIRTY: typestate of the dirty marker Stream.flusher - on every path from the arm that took the marker to any return, either the ok successor of the write-back is passed or the marker is stored back; every Ok(n>0) path of Stream::write calls mark_modified. "
                        "R-FLUSHREACH: every Ok path of each link of the flush chain reaches <F as Write>::flush, and Stream::flush writes back first. R-WBENTRY: every Ok path of the flusher reaches write_data_to_stream, and every Ok path of write_data_to_stream / resize_stream rewrites the stream's directory entry (memory is updated before the file write, so only an unconditional rewrite lets a retried flush repair a failed one).",
